@@ -39,7 +39,8 @@ RULE = ('One host (PubSubManager / AsyncPubSubManager subclass, real '
         'one fault in one sequence, or a listener restart followed by a '
         'valid message. The harness backend counts its _listen() iterators: '
         'a subscription may be given up only when the backend failed '
-        '(injected), never because of a message.')
+        '(injected), never because of a message.'
+        ' An acknowledgement addressed to this host can name a third local client without outstanding callbacks, to which another host emits with a callback at the end.')
 ASSUMPTIONS = [
     'pickles are only built from generated data (no hostile opcodes)',
     'in-memory channel; the Redis managers are driven separately against a '
